@@ -92,6 +92,23 @@ pub fn fixed_hash<T: std::hash::Hash>(t: &T) -> u64 {
     t.hash(&mut h);
     h.finish()
 }
+/// records the byte stream a `Hash` implementation feeds to its hasher (concatenation of all writes)
+#[derive(Default)]
+pub struct RecordingHasher(pub Vec<u8>);
+impl std::hash::Hasher for RecordingHasher {
+    fn finish(&self) -> u64 {
+        0
+    }
+    fn write(&mut self, bytes: &[u8]) {
+        self.0.extend_from_slice(bytes);
+    }
+}
+pub fn hasher_input<T: std::hash::Hash>(t: &T) -> Vec<u8> {
+    let mut h = RecordingHasher::default();
+    t.hash(&mut h);
+    h.0
+}
+
 /// a second, differently structured fixed hasher (sum/rotate) to avoid judging by one function
 pub struct FixedHasher2(pub u64);
 impl std::hash::Hasher for FixedHasher2 {
